@@ -167,6 +167,22 @@ def run_problem(pi, a, f, seed, tier, out):
         for p in pats:
             cases.append((sizes, dims_by_name, p, exhaustive))
     out.write(json.dumps({"problem": pi, "assignment": a, "formats": f, "status": "ok", "ast": ast, "ncases": len(cases)}) + "\n")
+    # the stand-alone ASSEMBLE kernel of the same problem ("all kernels with a compressed output level"): its IR is run on
+    # the Python IR interpreter (c02_irmachine) for a bounded number of cases; the structure it leaves is judged like an output
+    asm = None
+    asm_budget = 16 if tier == "quick" else 96
+    try:
+        import c02_irmachine as im
+        from tensora.generate import generate_module_tensora
+        from tensora.kernel_type import KernelType
+
+        asm = generate_module_tensora(fn._problem, [KernelType.assemble]).unwrap().definitions[0]
+        out_fmt = fn._output_format
+        out_modes = ["d" if m.character == "d" else "s" for m in out_fmt.modes]
+        out_ordering = list(out_fmt.ordering)
+    except Exception as e:  # typed refusals of the generator are C08's business
+        asm = None
+        out.write(json.dumps({"problem": pi, "note": "no assemble kernel: " + type(e).__name__}) + "\n")
     for ci, (sizes, dims_by_name, p, exhaustive) in enumerate(cases):
         rec = {"id": f"{pi}.{ci}", "problem": pi, "sizes": sizes, "exhaustive": exhaustive,
                "entries": {n: [[list(c), v] for c, v in e.items()] for n, e in p.items()}}
@@ -181,6 +197,40 @@ def run_problem(pi, a, f, seed, tier, out):
             rec["out"] = raw
             rec["alloc_problems"] = problems
             rec["status"] = "ok"
+            # assemble: prefer the patterns with unstored cells (every 1st, then spread)
+            if asm is not None and asm_budget > 0 and (ci % max(1, len(cases) // (16 if tier == "quick" else 96)) == 0):
+                asm_budget -= 1
+                try:
+                    out_dims = [sizes[i] for i in pa.target.indexes]
+                    mres = im.run_kernel(asm, pa.target.name, out_dims, out_modes, out_ordering, rec["inputs"])
+                    if mres["status"] == "ok" and mres["complete"]:
+                        fin = mres["final"]
+                        idx, parents, sane = [], 1, True
+                        for l, md in enumerate(out_modes):
+                            if md == "d":
+                                idx.append([])
+                                parents *= out_dims[out_ordering[l]]
+                            else:
+                                pos, crd = fin["indices"][l]
+                                pos, crd = list(pos[: parents + 1]), list(crd)
+                                if any(c is None for c in pos) or len(pos) != parents + 1:
+                                    sane = False
+                                    break
+                                crd = crd[: pos[-1]] if isinstance(pos[-1], int) and 0 <= pos[-1] <= len(crd) else crd
+                                if any(c is None for c in crd):
+                                    sane = False
+                                    break
+                                idx.append([pos, crd])
+                                parents = len(crd)
+                        if sane:
+                            rec["assemble_out"] = {"dims": out_dims, "ordering": out_ordering, "modes": "".join(out_modes),
+                                                   "indices": idx, "vals": [0.0] * parents}
+                        else:
+                            rec["assemble_note"] = "structure left by assemble has uninitialised cells (C02/C05's business)"
+                    else:
+                        rec["assemble_note"] = "assemble on the IR interpreter: " + str(mres["status"])
+                except Exception as e:
+                    rec["assemble_note"] = "interpreter: " + type(e).__name__ + ": " + str(e)[:120]
         except Exception as e:
             nm = w2.err_name(e)
             rec["status"] = "skip" if w2.is_skipped(nm) else "error"
